@@ -12,7 +12,8 @@ remove, rename), starting at 0 with NewSnapshotter's open; the operation with in
 Since e2c64f9 compact() keeps the CLOSED old handles in place until the new ones are
 installed: after a failed remove / rename / reopen nothing is nil; writes through the
 stale writer reach the closed file and fail for real ("file already closed"), a second
-Close is an ignored error, and a remove of the already removed snapshot fails for real.
+Close is an ignored error, and a remove of the already removed snapshot fails for real — which compact() ignores since
+d3a31c2 (`removeMissingFails := true` is the code before, kept for the regression witness).
 `nilOnSwap := true` is the code before that fix (handles set to nil first), kept for the
 regression witness.
 -/
@@ -47,6 +48,9 @@ structure FSnap where
   fhClosed : Bool := false
   /-- the snapshot file exists in the directory -/
   mainExists : Bool := true
+  /-- the code before d3a31c2: compact() returned when os.Remove failed because the snapshot
+  file was already gone (after a failed rename); now os.IsNotExist is ignored -/
+  removeMissingFails : Bool := false
   deriving Repr, Inhabited
 
 /-- issue one OS operation: not performed if it is the faulty one; `works = false`: it is
@@ -116,7 +120,7 @@ def fOldClose (nil : Bool) (st : FSnap) : FSnap :=
 
 /-- remove, rename, reopen, install the new handles -/
 def fSwapTail (r7 : FSnap) (total : Nat) : FSnap × Res :=
-  let r8 := doOpW r7 (.remove .main) r7.mainExists
+  let r8 := doOpW r7 (.remove .main) (r7.mainExists || !r7.removeMissingFails)
   if !r8.2 then (r8.1, .err) else
   let r8' : FSnap := { r8.1 with mainExists := false }
   let r9 := doOp r8' (.rename .tmp .main)
@@ -230,12 +234,13 @@ def fShutdown (st : FSnap) (clk : Nat) : FSnap :=
   if r.fh then (doOp r (.close .main)).1 else r
 
 /-- NewSnapshotter on a fresh directory (its own open is operation 0 and is not faulted here) -/
-def fInit (rj : Bool) (mc : Nat) (fault : Option Nat) (nilOnSwap : Bool := false) : FSnap :=
+def fInit (rj : Bool) (mc : Nat) (fault : Option Nat) (nilOnSwap : Bool := false) (removeMissingFails : Bool := false) : FSnap :=
   { s := (Snap.init rj mc).1, nops := 1, fault := fault, done := [.openAppend .main], log := [(.openAppend .main, true)],
-    nilOnSwap := nilOnSwap }
+    nilOnSwap := nilOnSwap, removeMissingFails := removeMissingFails }
 
-def fLife (rj : Bool) (mc : Nat) (fault : Option Nat) (evs : List FEv) (clk : Nat) (nilOnSwap : Bool := false) : FSnap :=
-  fShutdown (fRun (fInit rj mc fault nilOnSwap) evs) clk
+def fLife (rj : Bool) (mc : Nat) (fault : Option Nat) (evs : List FEv) (clk : Nat) (nilOnSwap : Bool := false)
+    (removeMissingFails : Bool := false) : FSnap :=
+  fShutdown (fRun (fInit rj mc fault nilOnSwap removeMissingFails) evs) clk
 
 /-- the faults after which the handles are nil: compact()'s remove, rename, reopen -/
 def badFault : Option FsOp → Bool
